@@ -16,6 +16,8 @@ pub struct DifferenceMut<'a, P, L, R> {
     table_l: &'a Table<P, L>,
     table_r: &'a Table<P, R>,
     nodes: Vec<(DifferenceIndex, Option<(&'a P, &'a R)>)>,
+    // The iterator hands out `&'a mut L`; make the auto traits follow.
+    marker: std::marker::PhantomData<&'a mut L>,
 }
 
 impl<'a, P, L, R> DifferenceMut<'a, P, L, R> {
@@ -31,6 +33,7 @@ impl<'a, P, L, R> DifferenceMut<'a, P, L, R> {
             table_l,
             table_r,
             nodes,
+            marker: std::marker::PhantomData,
         }
     }
 }
@@ -49,6 +52,8 @@ pub struct CoveringDifferenceMut<'a, P, L, R> {
     table_l: &'a Table<P, L>,
     table_r: &'a Table<P, R>,
     nodes: Vec<DifferenceIndex>,
+    // The iterator hands out `&'a mut L`; make the auto traits follow.
+    marker: std::marker::PhantomData<&'a mut L>,
 }
 
 impl<'a, P, L, R> CoveringDifferenceMut<'a, P, L, R> {
@@ -64,6 +69,7 @@ impl<'a, P, L, R> CoveringDifferenceMut<'a, P, L, R> {
             table_l,
             table_r,
             nodes,
+            marker: std::marker::PhantomData,
         }
     }
 }
